@@ -671,7 +671,20 @@ func (g *g14) stmt(d int) string {
 		case 3:
 			return "for (i, e in " + g.expr(2, kArr) + ") " + g.block(d, []lvar{{"i", kInt}, {"e", kInt}})
 		default:
-			return "for ((k1, k2), v in " + g.pick("@sum", "@m", "@*", g.expr(2, kMap)) + ") " + g.block(d, []lvar{{"k1", kStr}, {"k2", kStr}, {"v", kAny}})
+			deep := `{"a": {"x": {"p": 1, "q": 2}, "y": {"p": 3}}, "b": {"x": {"p": 4, "q": 5}}, "c": 6}`
+			if g.ch(1, 2) {
+				// three key levels; a break in the body must leave ALL levels
+				body := g.block(d, []lvar{{"k1", kStr}, {"k2", kStr}, {"k3", kStr}, {"v", kAny}})
+				if g.ch(2, 3) {
+					body = "{\nprint k1 . \":\" . k2 . \":\" . k3;\nif (" + g.pick(`k3 == "q"`, `k2 == "y"`, "v > 2", `k1 == "a" && k3 == "p"`) + ") {\n" + g.pick("break", "break", "continue") + ";\n}\n" + body[2:]
+				}
+				return "for ((k1, k2, k3), v in " + g.pick("@sum", "@*", deep, deep) + ") " + body
+			}
+			body := g.block(d, []lvar{{"k1", kStr}, {"k2", kStr}, {"v", kAny}})
+			if g.ch(1, 2) {
+				body = "{\nif (" + g.pick(`k2 == "x"`, `k1 == "b"`, "is_map(v)") + ") {\n" + g.pick("break", "continue") + ";\n}\nprint k1 . \":\" . k2;\n" + body[2:]
+			}
+			return "for ((k1, k2), v in " + g.pick("@sum", "@m", "@*", deep, g.expr(2, kMap)) + ") " + body
 		}
 	case c < 28: // triple-for
 		g.inLoop++
